@@ -190,6 +190,9 @@ class scrypt(KDFAdapter):
 
 class blake2b(KDFAdapter, MACAdapter, HashAdapter):
     def __init__(self, *, length=64):
+        # hashlib accepts 1..64; anything under 16 bytes cannot name chunks safely
+        if not isinstance(length, int) or not 16 <= length <= 64:
+            raise ValueError('Invalid digest size')
         self.digest_size = length
 
     def generate_derivation_params(self):
@@ -253,6 +256,10 @@ class gclmulchunker(ChunkerAdapter):
     alignment = 4
 
     def __init__(self, *, min_length=MIN_LENGTH, max_length=MAX_LENGTH):
+        if not isinstance(min_length, int) or not isinstance(max_length, int):
+            raise ValueError('Chunk lengths must be integers')
+        if min_length < 1:
+            raise ValueError('Minimum length must be positive')
         if min_length > max_length:
             raise ValueError(
                 f'Minimum length ({min_length}) is greater '
